@@ -18,7 +18,7 @@ def WF(c, skip=()):
         "wrappers_owned": forest.wrappers_owned(c),
         "lit_wiring": z3.And(forest.wf_wiring(c), forest.wf_lit_owner(c)),
         "typed": forest.wf_typed(c),
-        "inv_region": forest.inv_region(c),
+        **forest.inv_region_parts(c),
         "symbols_typed": X.symbols_typed(c),
         "wf_symindex": X.wf_symindex(c),
         "wf_cache_I1": K.wf_cache_I1(c),
@@ -58,7 +58,8 @@ _CACHE = ["wf_cache_I1", "wf_cache_I2", "uuids_typed", "uuids_distinct_where_att
           "old_entries_kept_or_overwritten_by_subtree", "new_entries_are_subtree", "exactly_subtree_removed",
           "other_entries_unchanged", *_RELM, "rel_interval", "rel_block", "rel_section", "rel_symbol",
           "rel_proxy"]
-_REGION = ["inv_region", "lit_wiring", "typed", "rel_block", "rel_interval", "queued", "denote_step"]
+_RGN = ["region_denote", "region_alive", "region_unshared"]
+_REGION = ["inv_region", *_RGN, "lit_wiring", "typed", "rel_block", "rel_interval", "queued", "denote_step"]
 FOCUS = {
     "parent_kinds": _EFFECT,
     "uuids_typed": _EFFECT + ["uuids_typed"],
@@ -72,6 +73,7 @@ FOCUS = {
     "lit_wiring": _EFFECT + ["lit_wiring"],
     "typed": _EFFECT + ["typed"],
     "inv_region": _EFFECT + _REGION,
+    **{k: _EFFECT + _REGION for k in _RGN},
     "symbols_typed": _EFFECT + ["symbols_typed"],
     "wf_symindex": _EFFECT + ["wf_symindex", "symbols_typed", "name_index", "referent_index", "rel_symbol",
                                 "other_modules"],
